@@ -344,6 +344,14 @@ def headsRangeScan (g : Graph) (fp : Bool) (filter : Nat → Bool) :
       else headsRangeScan g fp filter p (filterPar fp (g.par p) ++ wanted) unwanted'
     else headsRangeScan g fp filter p wanted unwanted'
 
+/-- `HeadsRange` arm after the two operands are evaluated (`heads` already has the roots
+removed): `if heads.is_empty() { return Ok(heads) }`, else the scan. -/
+def headsRangeArm (g : Graph) (fp : Bool) (filter : Nat → Bool) (roots heads : List Nat) : List Nat :=
+  if heads.isEmpty then [] else headsRangeScan g fp filter g.size heads roots
+
+/-- `Coalesce` arm: the first operand if it streams anything, else the second -/
+def coalesceArm (a b : List Nat) : List Nat := if a.isEmpty then b else a
+
 /-! ## expressions -/
 
 /-- `RevsetExpression` restricted to the covered operators (resolved state: no symbols).
@@ -506,20 +514,15 @@ def eval (g : Graph) : RExpr → List Nat
   | .heads x => headsPos g (eval g x)
   | .headsRange r h fp f =>
     let roots := eval g r
-    let heads := diffDesc (eval g h) roots
-    match heads with
-    | [] => []
-    | _ =>
-      match f with
-      | none => headsRangeScan g fp (fun _ => true) g.size heads roots
-      | some f => headsRangeScan g fp (evalPred g f) g.size heads roots
+    headsRangeArm g fp
+      (match f with
+       | none => fun _ => true
+       | some f => evalPred g f)
+      roots (diffDesc (eval g h) roots)
   | .roots x => rootsOf g (eval g x)
   | .forkPoint x => forkPoint g (eval g x)
   | .latest x n => takeLatest g (eval g x) n
-  | .coalesce a b =>
-    match eval g a with
-    | [] => eval g b
-    | l => l
+  | .coalesce a b => coalesceArm (eval g a) (eval g b)
   | .union a b => unionDesc (eval g a) (eval g b)
   | .inter a b => interDesc (eval g a) (eval g b)
   | .diff a b => diffDesc (eval g a) (eval g b)
